@@ -216,9 +216,11 @@ func (c *XAConn) createNewTxOnExecIfNeed(ctx context.Context, f func() (types.Ex
 		if err = c.Commit(ctx); err != nil {
 			log.Errorf("xa connection proxy commit failure xid:%s, err:%v", c.txCtx.XID, err)
 			// XA End & Rollback
-			if err := c.Rollback(ctx); err != nil {
-				log.Errorf("xa connection proxy rollback failure xid:%s, err:%v", c.txCtx.XID, err)
+			if rollbackErr := c.Rollback(ctx); rollbackErr != nil {
+				log.Errorf("xa connection proxy rollback failure xid:%s, err:%v", c.txCtx.XID, rollbackErr)
 			}
+			// the branch was not prepared: the statement has not taken effect
+			return nil, err
 		}
 	}
 
@@ -361,7 +363,8 @@ func (c *XAConn) ShouldBeHeld() bool {
 }
 
 func (c *XAConn) checkTimeout(ctx context.Context, now time.Time) error {
-	if now.Sub(c.branchRegisterTime) > xaConnTimeout {
+	// a zero timeout means none was configured (InitXA sets the configured value)
+	if xaConnTimeout > 0 && now.Sub(c.branchRegisterTime) > xaConnTimeout {
 		// the caller (Commit) rolls the branch back through commitErrorHandle
 		return fmt.Errorf("XA branch timeout error xid:%s", c.txCtx.XID)
 	}
